@@ -99,7 +99,7 @@ HeapViol(h) ==
   ELSE LET tabs == DOMAIN h.final.heap
        IN {[step |-> Len(h.events) + 1, clause |-> "NoSharedMutable", got |-> x[1] \o "/" \o x[2] \o ":" \o x[3], want |-> "-"] :
              x \in {y \in tabs \X tabs \X {"crystal_structure", "magnetic_ff", "magnetic_ff.item", "neutron",
-                                              "neutron_activation", "neutron_activation.item", "neutron.nsf_table", "_xray"} :
+                                              "neutron_activation", "neutron_activation.item", "neutron.nsf_table", "_xray", "_xray.table"} :
                       /\ y[1] # y[2]
                       /\ y[3] \in DOMAIN h.final.heap[y[1]] /\ y[3] \in DOMAIN h.final.heap[y[2]]
                       /\ ToSet(h.final.heap[y[1]][y[3]]) \cap ToSet(h.final.heap[y[2]][y[3]]) # {}}}
